@@ -7,7 +7,7 @@
    listed class). *)
 From Coq Require Import QArith.
 From GJ Require Import Base Kernel KernelSpec KernelProofs IntersectsProofs Series SeriesSpec
-  Ring RingSpec PipProofs PairProofs.
+  Ring RingSpec PipProofs PairProofs Jordan JordanQ.
 Open Scope Z_scope.
 
 (* X contains a point: point membership (for a single point covering = meeting) *)
@@ -62,7 +62,34 @@ Theorem C03_ring_ring_vertices : forall r o allow sg,
   rcp_hit r (fst sg) allow = true /\ rcp_hit r (snd sg) allow = true.
 Proof. exact rcr_core_vertices. Qed.
 
+(* strict containment of a segment by a ring not flagged convex (allowOnEdge = false: the
+   test applied to holes): both ends strictly inside and no edge meets the segment ... *)
+Theorem C03_ring_segment_strict_exact : forall ps A B,
+  ring_convex (RS {| closed := true; pts := ps |}) = false ->
+  rcs (RS {| closed := true; pts := ps |}) (A, B) false =
+  strictly_in_ringb (ring_edges ps) A && strictly_in_ringb (ring_edges ps) B &&
+  negb (existsb (fun e => seg_meetb e (A, B)) (ring_edges ps)).
+Proof. exact ring_contains_segment_strict_exact. Qed.
+(* ... which is: every rational point (P, k) = P / k of the closed segment is strictly inside
+   (discrete Jordan argument, Jordan.v) *)
+Theorem C03_ring_segment_strict_pointset : forall ps A B,
+  ring_convex (RS {| closed := true; pts := ps |}) = false ->
+  (rcs (RS {| closed := true; pts := ps |}) (A, B) false = true <->
+   forall k P, 0 < k -> on_seg (sc k A, sc k B) P ->
+               strictly_in_ringb (ring_edges (map (sc k) ps)) P = true).
+Proof. exact ring_contains_segment_strict_pointset. Qed.
+(* non-vacuity: an L-shaped (concave) ring and a segment strictly inside it; and one that
+   leaves through the notch *)
+Example C03_strict_example :
+  let ps := [(0,0); (6,0); (6,2); (2,2); (2,6); (0,6); (0,0)] in
+  ring_convex (RS {| closed := true; pts := ps |}) = false /\
+  rcs (RS {| closed := true; pts := ps |}) ((1,1), (5,1)) false = true /\
+  rcs (RS {| closed := true; pts := ps |}) ((1,5), (5,1)) false = false.
+Proof. vm_compute. repeat split. Qed.
+
 Print Assumptions C03_rect_rect.
+Print Assumptions C03_ring_segment_strict_exact.
+Print Assumptions C03_ring_segment_strict_pointset.
 Print Assumptions C03_rect_line.
 Print Assumptions C03_rect_poly.
 Print Assumptions C03_point_line.
